@@ -1,5 +1,107 @@
-(* Props/C18.v -- property theorems only *)
+(* Props/C18.v -- property theorems only (proofs in IL/LocProofs.v) *)
 From Coq Require Import ZArith List.
-From Falcon Require Import Base.Res IL.Func IL.Loc IL.LocProofs.
+From Falcon Require Import Base.Res IL.Const IL.Expr IL.Func IL.Loc IL.LocProofs.
 Import ListNotations.
 Local Open Scope Z_scope.
+
+(* 0. forward / backward are exactly the one-step relation [step] of the static structure *)
+Theorem forward_spec : forall f, cfg_inv (f_cfg f) = true -> forall a b, valid_loc f a = true ->
+  ((exists l, forward f a = Ok l /\ In b l) <-> step f a b).
+Proof. exact LocProofs.forward_spec. Qed.
+Print Assumptions forward_spec.
+
+Theorem backward_spec : forall f, cfg_inv (f_cfg f) = true -> forall a b, valid_loc f b = true ->
+  ((exists l, backward f b = Ok l /\ In a l) <-> step f a b).
+Proof. exact LocProofs.backward_spec. Qed.
+Print Assumptions backward_spec.
+
+(* 1. stepping forward and backward are converse relations *)
+Theorem fwd_bwd_converse : forall f, cfg_inv (f_cfg f) = true -> forall a b,
+  valid_loc f a = true -> valid_loc f b = true ->
+  ((exists l, forward f a = Ok l /\ In b l) <-> (exists l, backward f b = Ok l /\ In a l)).
+Proof. exact LocProofs.fwd_bwd_converse. Qed.
+Print Assumptions fwd_bwd_converse.
+
+(* ... total on valid locations and closed in them *)
+Theorem forward_total : forall f, cfg_inv (f_cfg f) = true -> forall a, valid_loc f a = true ->
+  exists l, forward f a = Ok l /\ forall b, In b l -> valid_loc f b = true.
+Proof. exact LocProofs.forward_total. Qed.
+Print Assumptions forward_total.
+
+Theorem backward_total : forall f, cfg_inv (f_cfg f) = true -> forall b, valid_loc f b = true ->
+  exists l, backward f b = Ok l /\ forall a, In a l -> valid_loc f a = true.
+Proof. exact LocProofs.backward_total. Qed.
+Print Assumptions backward_total.
+
+(* 2. every instruction, empty block and edge is enumerated, nothing else, each exactly once *)
+Theorem locations_complete : forall f l,
+  In l (locations f) <->
+  (exists b i, In b (f_blocks f) /\ In i (b_instrs b) /\ l = LInstr (b_index b) (i_index i))
+  \/ (exists b, In b (f_blocks f) /\ b_instrs b = [] /\ l = LEmpty (b_index b))
+  \/ (exists e, In e (f_edges f) /\ l = LEdge (e_head e) (e_tail e)).
+Proof. exact LocProofs.locations_complete. Qed.
+Print Assumptions locations_complete.
+
+Theorem locations_nodup : forall f, cfg_inv (f_cfg f) = true -> NoDup (locations f).
+Proof. exact LocProofs.locations_nodup. Qed.
+Print Assumptions locations_nodup.
+
+Theorem locations_valid : forall f l, cfg_inv (f_cfg f) = true -> (In l (locations f) <-> valid_loc f l = true).
+Proof. exact LocProofs.locations_valid. Qed.
+Print Assumptions locations_valid.
+
+(* 3. closure of the entry location under forward = locations on paths from the entry block *)
+Theorem forward_closure_eq_paths : forall f, cfg_inv (f_cfg f) = true -> forall l,
+  fclosure f l <-> (valid_loc f l = true /\ on_entry_path f l).
+Proof. exact LocProofs.forward_closure_eq_paths. Qed.
+Print Assumptions forward_closure_eq_paths.
+
+(* 4. owned form, applied to the same or an equal program, is the identity *)
+Theorem apply_from_id : forall p' fi f f' l,
+  f_index f = Some fi -> valid_loc f l = true ->
+  program_function p' fi = Some f' -> f_cfg f' = f_cfg f ->
+  ploc_apply p' (ploc_of f l) = Ok (fi, l) /\ floc_apply f' l = Ok l.
+Proof. exact LocProofs.apply_from_id. Qed.
+Print Assumptions apply_from_id.
+
+Theorem apply_from_id_same : forall p fi f l,
+  prog_inv p = true -> In (fi, f) (p_funcs p) -> valid_loc f l = true ->
+  ploc_apply p (ploc_of f l) = Ok (fi, l).
+Proof. exact LocProofs.apply_from_id_same. Qed.
+Print Assumptions apply_from_id_same.
+
+Theorem migrate_id : forall p' fi f f' l,
+  f_index f = Some fi -> valid_loc f l = true ->
+  program_function p' fi = Some f' -> f_cfg f' = f_cfg f ->
+  migrate p' f l = Ok (fi, l).
+Proof. exact LocProofs.migrate_id. Qed.
+Print Assumptions migrate_id.
+
+(* 5. address look-up *)
+Theorem from_address_complete : forall p a,
+  (has_addr p a -> exists k l, from_address p a = Some (k, l)) /\
+  (~ has_addr p a -> from_address p a = None).
+Proof. exact LocProofs.from_address_complete. Qed.
+Print Assumptions from_address_complete.
+
+Theorem from_address_sound : forall p a k l,
+  prog_inv p = true -> (forall k f, In (k, f) (p_funcs p) -> cfg_inv (f_cfg f) = true) ->
+  from_address p a = Some (k, l) ->
+  exists f i, program_function p k = Some f /\ valid_loc f l = true /\
+              loc_instruction f l = Some i /\ i_addr i = Some a.
+Proof. exact LocProofs.from_address_sound. Qed.
+Print Assumptions from_address_sound.
+
+(* the hypotheses are satisfiable: two blocks (one empty, with a self-loop), non-contiguous
+   instruction indices, a duplicated address *)
+Definition ex_nop i a := mkinstr i (ONop None) (Some a).
+Definition ex_f : func :=
+  mkfunc 100 (mkcfg [mkblock 0 4 [ex_nop 0 100; ex_nop 3 100] []; mkblock 1 0 [] []]
+                    [mkedge 0 1 None; mkedge 1 1 None] 2 (Some 0) (Some 1)) (Some 0).
+Example ex_hyps : cfg_inv (f_cfg ex_f) = true /\ prog_inv (mkprog [(0, ex_f)]) = true.
+Proof. split; reflexivity. Qed.
+Example ex_locations :
+  locations ex_f = [LInstr 0 0; LInstr 0 3; LEmpty 1; LEdge 0 1; LEdge 1 1]
+  /\ forward ex_f (LInstr 0 3) = Ok [LEdge 0 1] /\ backward ex_f (LEmpty 1) = Ok [LEdge 0 1; LEdge 1 1]
+  /\ from_address (mkprog [(0, ex_f)]) 100 = Some (0, LInstr 0 0).
+Proof. repeat split; reflexivity. Qed.
